@@ -171,6 +171,22 @@ def d_legacy_names(scope):
     return f
 
 
+def d_split_chain(t):
+    """One covalently continuous strand deposited under two chain identifiers: chain A from residue 4 on becomes chain C (the O3'-P link A3-C4 is intact,
+    but connectivity and segments are a matter of residues of one chain)."""
+    if any(a["chain"] == "C" for a in t):
+        return False
+    for a in t:
+        if a["chain"] == "A" and a["resseq"] >= 4:
+            a["chain"] = "C"
+
+
+def d_sodium(t):
+    """A sodium ion: component, atom and element are all spelled NA - a name, not a missing-value marker."""
+    last = t[-1]
+    t.append(enumio.atom(last["serial"] + 1, "NA", "NA", last["chain"], 301, "%.3f" % (float(last["x"]) + 9.0), "%.3f" % (float(last["y"]) + 9.0), last["z"], element="NA", record="HETATM"))
+
+
 def d_reverse(t):
     out = []
     for _, atoms in corpus.residues(t):
@@ -206,6 +222,7 @@ def deviations():
     # coordinates that fill the 8-character PDB fields completely (<= -100.000, >= 1000.000)
     d += [d_shift(-250.0, -250.0, -250.0), d_shift(1500.0, 0.0, -180.0), d_shift(0.0, 2000.0, 0.0)]
     d += [d_legacy_names("all"), d_legacy_names("A3-A4")]
+    d += [d_split_chain, d_sodium]
     return d
 
 
